@@ -28,6 +28,9 @@ RULE = (
     "operator. Non-trivial = the target's reduced state before the call is not a basis state; distinct = "
     "(entry, storage kind, representation, block size, operation type, layout hash)."
 )
+from pw_verif.props._machine import HISTORY_NOTE, SURVIVOR_NOTE  # noqa: E402,F401
+
+RULE += SURVIVOR_NOTE + HISTORY_NOTE
 ASSUMPTIONS = [
     "reference model self-tests passed (two independent operator embeddings agree)",
     "states are placed into blocks by assigning correctly shaped arrays after the layout was built through public calls (as the repository's tests do); the call under test is always a public call",
